@@ -112,6 +112,45 @@ theorem IOk.cons {hash : Nat → NVal → Nat} {S : Nat → NVal → Prop} {I : 
     obtain ⟨h1, h2, h3⟩ := hI k s p h
     exact ⟨h1, h2, CanonH.mono hle h3⟩
 
+/-- `IOk` relative to a threshold `n`: entries are in the collision-free universe and filed under their own hash;
+    only allocations with slot ≥ `n` are required to be canonical, and only down to allocations older than `n`.
+    `n = 0` is `IOk`; `n = I.length` asks nothing about canonicity (`IOkW`). -/
+def IOkN (hash : Nat → NVal → Nat) (S : Nat → NVal → Prop) (n : Nat) (I : NInterner) : Prop :=
+  ∀ k s p, NInterner.find I k = some (s, p) →
+    S k.1 p.erase ∧ k.2 = hash k.1 p.erase ∧ (n ≤ s → CanonH hash I (p.handlesAbove n))
+
+/-- integrity of the decoder-side interner without any canonicity: every live entry's payload belongs to the
+    collision-free universe and is filed under its own hash -/
+def IOkW (hash : Nat → NVal → Nat) (S : Nat → NVal → Prop) (I : NInterner) : Prop :=
+  ∀ k s p, NInterner.find I k = some (s, p) → S k.1 p.erase ∧ k.2 = hash k.1 p.erase
+
+theorem IOkN.cons {hash : Nat → NVal → Nat} {S : Nat → NVal → Prop} {n : Nat} {I : NInterner} (hI : IOkN hash S n I)
+    (tid : Nat) (d : DVal) (hnone : NInterner.find I (tid, hash tid d.erase) = none)
+    (hS : S tid d.erase) (hc : CanonH hash I (d.handlesAbove n)) : IOkN hash S n (((tid, hash tid d.erase), d) :: I) := by
+  have hle := NInterner.le_cons I (tid, hash tid d.erase) d hnone
+  intro k s p h
+  by_cases ek : (tid, hash tid d.erase) = k
+  · subst ek
+    rw [nfind_cons_self] at h
+    simp only [Option.some.injEq, Prod.mk.injEq] at h
+    obtain ⟨_, rfl⟩ := h
+    exact ⟨hS, rfl, fun _ => CanonH.mono hle hc⟩
+  · rw [nfind_cons_ne _ _ _ _ ek] at h
+    obtain ⟨h1, h2, h3⟩ := hI k s p h
+    exact ⟨h1, h2, fun hn => CanonH.mono hle (h3 hn)⟩
+
+theorem canon_node {hash : Nat → NVal → Nat} {I : NInterner} {n tid s : Nat} {p : DVal}
+    (hf : NInterner.find I (tid, hash tid p.erase) = some (s, p)) (h : n ≤ s → CanonH hash I (p.handlesAbove n)) :
+    CanonH hash I ((DVal.handle tid s p).handlesAbove n) := by
+  intro x hx
+  simp only [DVal.handlesAbove, List.mem_cons] at hx
+  rcases hx with rfl | hx
+  · exact hf
+  · by_cases hs : s < n
+    · simp [hs] at hx
+    · simp only [hs, if_false] at hx
+      exact h (by omega) x hx
+
 theorem readByte_cons (b : UInt8) (bs : Bytes) : readByte (b :: bs) = .ok (b, bs) := rfl
 
 section roundtrip
@@ -119,31 +158,32 @@ section roundtrip
 variable {env : Nat → NTy} {hash : Nat → NVal → Nat} {S : Nat → NVal → Prop}
 
 /-- what one decode step establishes -/
-structure Post (hash : Nat → NVal → Nat) (S : Nat → NVal → Prop) (I : NInterner) (seen' : Seen)
+structure Post (hash : Nat → NVal → Nat) (S : Nat → NVal → Prop) (n : Nat) (I : NInterner) (seen' : Seen)
     (anc : List (Nat × NVal)) (I' : NInterner) (hs : List (Nat × Nat × DVal)) : Prop where
   le : NInterner.le I I'
-  ok : IOk hash S I'
+  ok : IOkN hash S n I'
   seen : SeenOk hash seen' I' anc
   canon : CanonH hash I' hs
+  len : I.length ≤ I'.length
 
 mutual
 theorem dec_enc_v
     (hinj : ∀ tid p₁ p₂, S tid p₁ → S tid p₂ → hash tid p₁ = hash tid p₂ → p₁ = p₂)
-    (hbound : ∀ tid p, S tid p → hash tid p < 2 ^ 128) :
+    (hbound : ∀ tid p, S tid p → hash tid p < 2 ^ 128) (n : Nat) :
     (v : NVal) → ∀ (t : NTy) (seen : Seen) (I : NInterner) (anc : List (Nat × NVal)) (rest : Bytes) (fuel : Nat),
-      wtN env t v = true → (∀ x ∈ v.handles, S x.1 x.2) → IOk hash S I → SeenOk hash seen I anc →
+      wtN env t v = true → (∀ x ∈ v.handles, S x.1 x.2) → IOkN hash S n I → n ≤ I.length → SeenOk hash seen I anc →
       (∀ y ∈ anc, S y.1 y.2 ∧ v.need ≤ y.2.need) → v.need ≤ fuel →
-      ∃ d I', dec env hash fuel t ((enc env hash t v seen).1 ++ rest) I = .ok (d, rest, I') ∧ d.erase = v ∧
-        Post hash S I (enc env hash t v seen).2 anc I' d.handles
-  | .plain pv, t, seen, I, anc, rest, fuel, hwt, _, hI, hs, _, hfuel => by
+      ∃ d I', dec true env hash fuel t ((enc env hash t v seen).1 ++ rest) I = .ok (d, rest, I') ∧ d.erase = v ∧
+        Post hash S n I (enc env hash t v seen).2 anc I' (d.handlesAbove n)
+  | .plain pv, t, seen, I, anc, rest, fuel, hwt, _, hI, hn, hs, _, hfuel => by
     obtain ⟨f, rfl⟩ : ∃ f, fuel = f + 1 := ⟨fuel - 1, by simp only [NVal.need] at hfuel; omega⟩
     cases t <;> simp only [wtN, Bool.and_eq_true, Bool.false_eq_true] at hwt
     rename_i pt
-    refine ⟨.plain pv, I, ?_, rfl, ⟨NInterner.le_refl I, hI, by simpa [enc] using hs, by intro x hx; simp [DVal.handles] at hx⟩⟩
+    refine ⟨.plain pv, I, ?_, rfl, ⟨NInterner.le_refl I, hI, by simpa [enc] using hs, by intro x hx; simp [DVal.handlesAbove] at hx, Nat.le_refl _⟩⟩
     have e := dec_enc true pt pv rest hwt.1 (Or.inl rfl)
     rw [normalize_id pt pv hwt.2] at e
     simp only [enc, dec, e]
-  | .handle tid p, t, seen, I, anc, rest, fuel, hwt, hS, hI, hs, hanc, hfuel => by
+  | .handle tid p, t, seen, I, anc, rest, fuel, hwt, hS, hI, hn, hs, hanc, hfuel => by
     obtain ⟨f, rfl⟩ : ∃ f, fuel = f + 1 := ⟨fuel - 1, by simp only [NVal.need] at hfuel; omega⟩
     simp only [wtN, Bool.and_eq_true] at hwt
     obtain ⟨hty, hwp⟩ := hwt
@@ -160,16 +200,12 @@ theorem dec_enc_v
       rcases hs _ hin with ⟨s, p', hf⟩ | ⟨y, hy, hyk⟩
       · obtain ⟨h1, h2, h3⟩ := hI _ _ _ hf
         have hp' : p'.erase = p := hinj tid _ _ h1 hSv h2.symm
-        refine ⟨.handle tid s p', I, ?_, by simp [DVal.erase, hp'], ⟨NInterner.le_refl I, hI, by rw [henc]; exact hs, ?_⟩⟩
+        refine ⟨.handle tid s p', I, ?_, by simp [DVal.erase, hp'], ⟨NInterner.le_refl I, hI, by rw [henc]; exact hs, ?_, Nat.le_refl _⟩⟩
         · rw [henc]
           simp only [List.cons_append, dec, readByte_cons]
           simp only [decHash_encHash _ (hbound tid p hSv), hf]
           simp
-        · intro x hx
-          simp only [DVal.handles, List.mem_cons] at hx
-          rcases hx with rfl | hx
-          · simpa [hp'] using hf
-          · exact h3 x hx
+        · exact canon_node (by rw [hp']; exact hf) h3
       · -- … to an unfinished ancestor: impossible without a collision
         exfalso
         obtain ⟨hyS, hyn⟩ := hanc y hy
@@ -199,16 +235,16 @@ theorem dec_enc_v
         · obtain ⟨h1, h2⟩ := hanc y hy
           simp only [NVal.need] at h2
           exact ⟨h1, by omega⟩
-      obtain ⟨d1, I1, hdec, her, hle1, hI1, hs1, hc1⟩ :=
-        dec_enc_v hinj hbound p (env tid) ((tid, hash tid p) :: seen) I ((tid, p) :: anc) rest f hwp
-          (fun x hx => hS x (by simp [NVal.handles, hx])) hI hs' hanc' (by simp only [NVal.need] at hfuel; omega)
+      obtain ⟨d1, I1, hdec, her, hle1, hI1, hs1, hc1, hlen1⟩ :=
+        dec_enc_v hinj hbound n p (env tid) ((tid, hash tid p) :: seen) I ((tid, p) :: anc) rest f hwp
+          (fun x hx => hS x (by simp [NVal.handles, hx])) hI hn hs' hanc' (by simp only [NVal.need] at hfuel; omega)
       rw [henc]
       cases hf : NInterner.find I1 (tid, hash tid p) with
       | some sp =>
         obtain ⟨s, p'⟩ := sp
         obtain ⟨h1, h2, h3⟩ := hI1 _ _ _ hf
         have hp' : p'.erase = p := hinj tid _ _ h1 hSv h2.symm
-        refine ⟨.handle tid s p', I1, ?_, by simp [DVal.erase, hp'], ⟨hle1, hI1, ?_, ?_⟩⟩
+        refine ⟨.handle tid s p', I1, ?_, by simp [DVal.erase, hp'], ⟨hle1, hI1, ?_, ?_, hlen1⟩⟩
         · simp only [List.cons_append, dec, readByte_cons, hdec, her, hf]
           simp
         · intro k hk
@@ -217,17 +253,13 @@ theorem dec_enc_v
           · rcases List.mem_cons.1 hy with rfl | hy
             · exact Or.inl ⟨s, p', by rw [← hyk]; exact hf⟩
             · exact Or.inr ⟨y, hy, hyk⟩
-        · intro x hx
-          simp only [DVal.handles, List.mem_cons] at hx
-          rcases hx with rfl | hx
-          · simpa [hp'] using hf
-          · exact h3 x hx
+        · exact canon_node (by rw [hp']; exact hf) h3
       | none =>
         have hf' : NInterner.find I1 (tid, hash tid d1.erase) = none := by rw [her]; exact hf
         have hle2 := NInterner.le_cons I1 (tid, hash tid d1.erase) d1 hf'
-        have hI2 := IOk.cons hI1 tid d1 hf' (by rw [her]; exact hSv) hc1
+        have hI2 := IOkN.cons hI1 tid d1 hf' (by rw [her]; exact hSv) hc1
         refine ⟨.handle tid I1.length d1, ((tid, hash tid d1.erase), d1) :: I1, ?_, by simp [DVal.erase, her],
-          ⟨NInterner.le_trans hle1 hle2, hI2, ?_, ?_⟩⟩
+          ⟨NInterner.le_trans hle1 hle2, hI2, ?_, ?_, by simp only [List.length_cons]; omega⟩⟩
         · simp only [List.cons_append, dec, readByte_cons, hdec, her, hf]
           simp
         · intro k hk
@@ -237,12 +269,8 @@ theorem dec_enc_v
             · refine Or.inl ⟨I1.length, d1, ?_⟩
               rw [← hyk, ← her]; exact nfind_cons_self _ _ _
             · exact Or.inr ⟨y, hy, hyk⟩
-        · intro x hx
-          simp only [DVal.handles, List.mem_cons] at hx
-          rcases hx with rfl | hx
-          · exact nfind_cons_self _ _ _
-          · exact hle2 _ _ _ (hc1 x hx)
-  | .list vs, t, seen, I, anc, rest, fuel, hwt, hS, hI, hs, hanc, hfuel => by
+        · exact canon_node (nfind_cons_self _ _ _) (fun _ => CanonH.mono hle2 hc1)
+  | .list vs, t, seen, I, anc, rest, fuel, hwt, hS, hI, hn, hs, hanc, hfuel => by
     obtain ⟨f, rfl⟩ : ∃ f, fuel = f + 1 := ⟨fuel - 1, by simp only [NVal.need] at hfuel; omega⟩
     have hS' : ∀ x ∈ NVal.handlesL vs, S x.1 x.2 := fun x hx => hS x (by simpa [NVal.handles] using hx)
     have hanc' : ∀ y ∈ anc, S y.1 y.2 ∧ NVal.needL vs ≤ y.2.need := by
@@ -254,17 +282,17 @@ theorem dec_enc_v
     cases t <;> simp only [wtN, Bool.and_eq_true, Bool.false_eq_true, decide_eq_true_eq] at hwt
     · -- seq
       rename_i et
-      obtain ⟨ds, I', hdec, her, hp⟩ := dec_enc_seq hinj hbound vs et seen I anc rest f hwt.2 hS' hI hs hanc' hfuel'
+      obtain ⟨ds, I', hdec, her, hp⟩ := dec_enc_seq hinj hbound n vs et seen I anc rest f hwt.2 hS' hI hn hs hanc' hfuel'
       refine ⟨.list ds, I', ?_, by simp [DVal.erase, her], hp⟩
       simp only [enc, List.append_assoc, dec]
       rw [varint_roundtrip 64 _ (by decide) hwt.1]
       simp only [hdec]
     · -- tuple
       rename_i ts
-      obtain ⟨ds, I', hdec, her, hp⟩ := dec_enc_tuple hinj hbound vs ts seen I anc rest f hwt hS' hI hs hanc' hfuel'
+      obtain ⟨ds, I', hdec, her, hp⟩ := dec_enc_tuple hinj hbound n vs ts seen I anc rest f hwt hS' hI hn hs hanc' hfuel'
       refine ⟨.list ds, I', ?_, by simp [DVal.erase, her], hp⟩
       simp only [enc, dec, hdec]
-  | .tagged i p, t, seen, I, anc, rest, fuel, hwt, hS, hI, hs, hanc, hfuel => by
+  | .tagged i p, t, seen, I, anc, rest, fuel, hwt, hS, hI, hn, hs, hanc, hfuel => by
     obtain ⟨f, rfl⟩ : ∃ f, fuel = f + 1 := ⟨fuel - 1, by simp only [NVal.need] at hfuel; omega⟩
     have hS' : ∀ x ∈ p.handles, S x.1 x.2 := fun x hx => hS x (by simpa [NVal.handles] using hx)
     have hanc' : ∀ y ∈ anc, S y.1 y.2 ∧ p.need ≤ y.2.need := by
@@ -285,13 +313,13 @@ theorem dec_enc_v
           rfl
         subst hp
         refine ⟨.tagged 0 (.list []), I, ?_, by simp [DVal.erase, DVal.eraseL],
-          ⟨NInterner.le_refl I, hI, by simpa [enc] using hs, by intro x hx; simp [DVal.handles, DVal.handlesL] at hx⟩⟩
+          ⟨NInterner.le_refl I, hI, by simpa [enc] using hs, by intro x hx; simp [DVal.handlesAbove, DVal.handlesAboveL] at hx, Nat.le_refl _⟩⟩
         simp [enc, dec, readByte_cons]
       · simp only [hi, if_false, Bool.and_eq_true, beq_iff_eq] at hwt
         obtain ⟨hi1, hwp⟩ := hwt
         subst hi1
-        obtain ⟨d, I', hdec, her, hp⟩ := dec_enc_v hinj hbound p et seen I anc rest f hwp hS' hI hs hanc' hfuel'
-        refine ⟨.tagged 1 d, I', ?_, by simp [DVal.erase, her], by simpa [enc, DVal.handles] using hp⟩
+        obtain ⟨d, I', hdec, her, hp⟩ := dec_enc_v hinj hbound n p et seen I anc rest f hwp hS' hI hn hs hanc' hfuel'
+        refine ⟨.tagged 1 d, I', ?_, by simp [DVal.erase, her], by simpa [enc, DVal.handlesAbove] using hp⟩
         simp [enc, dec, readByte_cons, hdec]
     · -- enum
       rename_i vts
@@ -300,53 +328,53 @@ theorem dec_enc_v
       | none => rw [hvt] at hv; cases hv
       | some vt =>
         rw [hvt] at hv
-        obtain ⟨d, I', hdec, her, hp⟩ := dec_enc_v hinj hbound p vt seen I anc rest f hv hS' hI hs hanc' hfuel'
-        refine ⟨.tagged i d, I', ?_, by simp [DVal.erase, her], by simpa [enc, hvt, DVal.handles] using hp⟩
+        obtain ⟨d, I', hdec, her, hp⟩ := dec_enc_v hinj hbound n p vt seen I anc rest f hv hS' hI hn hs hanc' hfuel'
+        refine ⟨.tagged i d, I', ?_, by simp [DVal.erase, her], by simpa [enc, hvt, DVal.handlesAbove] using hp⟩
         simp only [enc, hvt, List.append_assoc, dec]
         rw [varint_roundtrip 64 _ (by decide) hi]
         simp only [hvt, hdec]
 theorem dec_enc_seq
     (hinj : ∀ tid p₁ p₂, S tid p₁ → S tid p₂ → hash tid p₁ = hash tid p₂ → p₁ = p₂)
-    (hbound : ∀ tid p, S tid p → hash tid p < 2 ^ 128) :
+    (hbound : ∀ tid p, S tid p → hash tid p < 2 ^ 128) (n : Nat) :
     (vs : List NVal) → ∀ (t : NTy) (seen : Seen) (I : NInterner) (anc : List (Nat × NVal)) (rest : Bytes) (fuel : Nat),
-      wtSeqN env t vs = true → (∀ x ∈ NVal.handlesL vs, S x.1 x.2) → IOk hash S I → SeenOk hash seen I anc →
+      wtSeqN env t vs = true → (∀ x ∈ NVal.handlesL vs, S x.1 x.2) → IOkN hash S n I → n ≤ I.length → SeenOk hash seen I anc →
       (∀ y ∈ anc, S y.1 y.2 ∧ NVal.needL vs ≤ y.2.need) → NVal.needL vs ≤ fuel →
-      ∃ ds I', decSeq env hash fuel t vs.length ((encSeq env hash t vs seen).1 ++ rest) I = .ok (ds, rest, I') ∧
-        DVal.eraseL ds = vs ∧ Post hash S I (encSeq env hash t vs seen).2 anc I' (DVal.handlesL ds)
-  | [], t, seen, I, anc, rest, fuel, _, _, hI, hs, _, _ => by
+      ∃ ds I', decSeq true env hash fuel t vs.length ((encSeq env hash t vs seen).1 ++ rest) I = .ok (ds, rest, I') ∧
+        DVal.eraseL ds = vs ∧ Post hash S n I (encSeq env hash t vs seen).2 anc I' (DVal.handlesAboveL n ds)
+  | [], t, seen, I, anc, rest, fuel, _, _, hI, hn, hs, _, _ => by
     refine ⟨[], I, by simp [encSeq, decSeq], rfl,
-      ⟨NInterner.le_refl I, hI, by simpa [encSeq] using hs, by intro x hx; simp [DVal.handlesL] at hx⟩⟩
-  | v :: vs, t, seen, I, anc, rest, fuel, hwt, hS, hI, hs, hanc, hfuel => by
+      ⟨NInterner.le_refl I, hI, by simpa [encSeq] using hs, by intro x hx; simp [DVal.handlesAboveL] at hx, Nat.le_refl _⟩⟩
+  | v :: vs, t, seen, I, anc, rest, fuel, hwt, hS, hI, hn, hs, hanc, hfuel => by
     obtain ⟨f, rfl⟩ : ∃ f, fuel = f + 1 := ⟨fuel - 1, by simp only [NVal.needL] at hfuel; omega⟩
     simp only [wtSeqN, Bool.and_eq_true] at hwt
     simp only [NVal.needL] at hfuel hanc
     obtain ⟨d1, I1, hdec1, her1, hp1⟩ :=
-      dec_enc_v hinj hbound v t seen I anc ((encSeq env hash t vs (enc env hash t v seen).2).1 ++ rest) f hwt.1
-        (fun x hx => hS x (by simp [NVal.handlesL, hx])) hI hs
+      dec_enc_v hinj hbound n v t seen I anc ((encSeq env hash t vs (enc env hash t v seen).2).1 ++ rest) f hwt.1
+        (fun x hx => hS x (by simp [NVal.handlesL, hx])) hI hn hs
         (fun y hy => ⟨(hanc y hy).1, by have := (hanc y hy).2; omega⟩) (by omega)
     obtain ⟨ds, I2, hdec2, her2, hp2⟩ :=
-      dec_enc_seq hinj hbound vs t (enc env hash t v seen).2 I1 anc rest f hwt.2
-        (fun x hx => hS x (by simp [NVal.handlesL, hx])) hp1.ok hp1.seen
+      dec_enc_seq hinj hbound n vs t (enc env hash t v seen).2 I1 anc rest f hwt.2
+        (fun x hx => hS x (by simp [NVal.handlesL, hx])) hp1.ok (Nat.le_trans hn hp1.len) hp1.seen
         (fun y hy => ⟨(hanc y hy).1, by have := (hanc y hy).2; omega⟩) (by omega)
     refine ⟨d1 :: ds, I2, ?_, by simp [DVal.eraseL, her1, her2],
-      ⟨NInterner.le_trans hp1.le hp2.le, hp2.ok, by simpa [encSeq] using hp2.seen, ?_⟩⟩
+      ⟨NInterner.le_trans hp1.le hp2.le, hp2.ok, by simpa [encSeq] using hp2.seen, ?_, Nat.le_trans hp1.len hp2.len⟩⟩
     · simp only [encSeq, List.length_cons, List.append_assoc, decSeq, hdec1, hdec2]
-    · simp only [DVal.handlesL]
+    · simp only [DVal.handlesAboveL]
       exact CanonH.append (CanonH.mono hp2.le hp1.canon) hp2.canon
 theorem dec_enc_tuple
     (hinj : ∀ tid p₁ p₂, S tid p₁ → S tid p₂ → hash tid p₁ = hash tid p₂ → p₁ = p₂)
-    (hbound : ∀ tid p, S tid p → hash tid p < 2 ^ 128) :
+    (hbound : ∀ tid p, S tid p → hash tid p < 2 ^ 128) (n : Nat) :
     (vs : List NVal) → ∀ (ts : List NTy) (seen : Seen) (I : NInterner) (anc : List (Nat × NVal)) (rest : Bytes) (fuel : Nat),
-      wtTupleN env ts vs = true → (∀ x ∈ NVal.handlesL vs, S x.1 x.2) → IOk hash S I → SeenOk hash seen I anc →
+      wtTupleN env ts vs = true → (∀ x ∈ NVal.handlesL vs, S x.1 x.2) → IOkN hash S n I → n ≤ I.length → SeenOk hash seen I anc →
       (∀ y ∈ anc, S y.1 y.2 ∧ NVal.needL vs ≤ y.2.need) → NVal.needL vs ≤ fuel →
-      ∃ ds I', decTuple env hash fuel ts ((encTuple env hash ts vs seen).1 ++ rest) I = .ok (ds, rest, I') ∧
-        DVal.eraseL ds = vs ∧ Post hash S I (encTuple env hash ts vs seen).2 anc I' (DVal.handlesL ds)
-  | [], ts, seen, I, anc, rest, fuel, hwt, _, hI, hs, _, _ => by
+      ∃ ds I', decTuple true env hash fuel ts ((encTuple env hash ts vs seen).1 ++ rest) I = .ok (ds, rest, I') ∧
+        DVal.eraseL ds = vs ∧ Post hash S n I (encTuple env hash ts vs seen).2 anc I' (DVal.handlesAboveL n ds)
+  | [], ts, seen, I, anc, rest, fuel, hwt, _, hI, hn, hs, _, _ => by
     have : ts = [] := by simpa [wtTupleN] using hwt
     subst this
     refine ⟨[], I, by simp [encTuple, decTuple], rfl,
-      ⟨NInterner.le_refl I, hI, by simpa [encTuple] using hs, by intro x hx; simp [DVal.handlesL] at hx⟩⟩
-  | v :: vs, ts, seen, I, anc, rest, fuel, hwt, hS, hI, hs, hanc, hfuel => by
+      ⟨NInterner.le_refl I, hI, by simpa [encTuple] using hs, by intro x hx; simp [DVal.handlesAboveL] at hx, Nat.le_refl _⟩⟩
+  | v :: vs, ts, seen, I, anc, rest, fuel, hwt, hS, hI, hn, hs, hanc, hfuel => by
     obtain ⟨f, rfl⟩ : ∃ f, fuel = f + 1 := ⟨fuel - 1, by simp only [NVal.needL] at hfuel; omega⟩
     cases ts with
     | nil => simp [wtTupleN] at hwt
@@ -354,21 +382,56 @@ theorem dec_enc_tuple
     simp only [wtTupleN, Bool.and_eq_true] at hwt
     simp only [NVal.needL] at hfuel hanc
     obtain ⟨d1, I1, hdec1, her1, hp1⟩ :=
-      dec_enc_v hinj hbound v t seen I anc ((encTuple env hash ts vs (enc env hash t v seen).2).1 ++ rest) f hwt.1
-        (fun x hx => hS x (by simp [NVal.handlesL, hx])) hI hs
+      dec_enc_v hinj hbound n v t seen I anc ((encTuple env hash ts vs (enc env hash t v seen).2).1 ++ rest) f hwt.1
+        (fun x hx => hS x (by simp [NVal.handlesL, hx])) hI hn hs
         (fun y hy => ⟨(hanc y hy).1, by have := (hanc y hy).2; omega⟩) (by omega)
     obtain ⟨ds, I2, hdec2, her2, hp2⟩ :=
-      dec_enc_tuple hinj hbound vs ts (enc env hash t v seen).2 I1 anc rest f hwt.2
-        (fun x hx => hS x (by simp [NVal.handlesL, hx])) hp1.ok hp1.seen
+      dec_enc_tuple hinj hbound n vs ts (enc env hash t v seen).2 I1 anc rest f hwt.2
+        (fun x hx => hS x (by simp [NVal.handlesL, hx])) hp1.ok (Nat.le_trans hn hp1.len) hp1.seen
         (fun y hy => ⟨(hanc y hy).1, by have := (hanc y hy).2; omega⟩) (by omega)
     refine ⟨d1 :: ds, I2, ?_, by simp [DVal.eraseL, her1, her2],
-      ⟨NInterner.le_trans hp1.le hp2.le, hp2.ok, by simpa [encTuple] using hp2.seen, ?_⟩⟩
+      ⟨NInterner.le_trans hp1.le hp2.le, hp2.ok, by simpa [encTuple] using hp2.seen, ?_, Nat.le_trans hp1.len hp2.len⟩⟩
     · simp only [encTuple, List.append_assoc, decTuple, hdec1, hdec2]
-    · simp only [DVal.handlesL]
+    · simp only [DVal.handlesAboveL]
       exact CanonH.append (CanonH.mono hp2.le hp1.canon) hp2.canon
 end
 
 end roundtrip
+
+/-! ## the two ends of the threshold -/
+
+mutual
+theorem handlesAbove_zero : (d : DVal) → d.handlesAbove 0 = d.handles
+  | .plain _ => rfl
+  | .handle tid s p => by simp [DVal.handlesAbove, DVal.handles, handlesAbove_zero p]
+  | .list vs => by simp [DVal.handlesAbove, DVal.handles, handlesAboveL_zero vs]
+  | .tagged _ p => by simp [DVal.handlesAbove, DVal.handles, handlesAbove_zero p]
+theorem handlesAboveL_zero : (ds : List DVal) → DVal.handlesAboveL 0 ds = DVal.handlesL ds
+  | [] => rfl
+  | d :: ds => by simp [DVal.handlesAboveL, DVal.handlesL, handlesAbove_zero d, handlesAboveL_zero ds]
+end
+
+theorem IOkN_zero_iff {hash : Nat → NVal → Nat} {S : Nat → NVal → Prop} {I : NInterner} :
+    IOkN hash S 0 I ↔ IOk hash S I := by
+  constructor
+  · intro h k s p hf
+    obtain ⟨h1, h2, h3⟩ := h k s p hf
+    refine ⟨h1, h2, ?_⟩
+    have := h3 (Nat.zero_le _)
+    rwa [handlesAbove_zero] at this
+  · intro h k s p hf
+    obtain ⟨h1, h2, h3⟩ := h k s p hf
+    refine ⟨h1, h2, fun _ => ?_⟩
+    rw [handlesAbove_zero]; exact h3
+
+theorem IOkN_length_of_IOkW {hash : Nat → NVal → Nat} {S : Nat → NVal → Prop} {I : NInterner}
+    (h : IOkW hash S I) : IOkN hash S I.length I := by
+  intro k s p hf
+  obtain ⟨h1, h2⟩ := h k s p hf
+  exact ⟨h1, h2, fun hn => absurd (nfind_slot_lt I k s p hf) (by omega)⟩
+
+theorem IOkW_of_IOkN {hash : Nat → NVal → Nat} {S : Nat → NVal → Prop} {n : Nat} {I : NInterner}
+    (h : IOkN hash S n I) : IOkW hash S I := fun k s p hf => ⟨(h k s p hf).1, (h k s p hf).2.1⟩
 
 /-! ## the seen set only grows, and the id of a written handle is in it -/
 
